@@ -236,42 +236,82 @@ int main(int argc, char **argv) {
 		}
 	}
 
-	// ---- 5. the QR (Schindelhauer) encoding: implementation-level oracle with real keys ---------------------------------
+	// ---- 5. the QR (Schindelhauer) encoding: real keys, k = 2, 3, 4 players, several type-bit widths ----------------------
+	// (the compensation row of TMCG_CreateCardSecret only matters for k >= 3; every card is opened by ALL players)
 	if (want("qr")) {
-		const size_t P = 2, TB = 3;
-		SchindelhauerTMCG tm(16, P, TB);
-		std::vector<TMCG_SecretKey*> sk; TMCG_PublicKeyRing ring(P);
-		for (size_t k = 0; k < P; k++) { sk.push_back(new TMCG_SecretKey("player", "p@example.org", 512, false)); ring.keys[k] = TMCG_PublicKey(*sk[k]); }
-		auto open = [&](const TMCG_Card &c) { TMCG_CardSecret cs(P, TB); for (size_t k = 0; k < P; k++) tm.TMCG_SelfCardSecret(c, cs, *sk[k], k); return tm.TMCG_TypeOfCard(cs); };
-		for (unsigned k = 0; k < (T ? 150u : 30u); k++) {
-			size_t n = (k < 10) ? 1 + k % 5 : 2 + gen().below(T ? 20 : 10);
-			TMCG_Stack<TMCG_Card> s, s1, s2, s3; std::vector<size_t> types;
-			for (size_t i = 0; i < n; i++) {
-				size_t t = gen().below(1 + gen().below(8)); TMCG_Card c(P, TB);
-				if (gen().coin()) tm.TMCG_CreateOpenCard(c, ring, t);
-				else { TMCG_CardSecret cs(P, TB); tm.TMCG_CreatePrivateCard(c, cs, ring, gen().below(P), t); }
-				s.push(c); types.push_back(t);
+		struct Cfg { size_t P, TB; unsigned bits; };
+		std::vector<Cfg> cfgs = { {3, 2, 448}, {4, 3, 512}, {2, 3, 480}, {3, 4, 512}, {4, 1, 448} };
+		if (T) { cfgs.push_back({4, 5, 512}); cfgs.push_back({3, 1, 576}); cfgs.push_back({1, 3, 448}); }
+		for (const Cfg &cf : cfgs) {
+			const size_t P = cf.P, TB = cf.TB;
+			SchindelhauerTMCG tm(16, P, TB);
+			std::vector<TMCG_SecretKey*> sk; TMCG_PublicKeyRing ring(P);
+			for (size_t k = 0; k < P; k++) { sk.push_back(new TMCG_SecretKey("player", "p@example.org", cf.bits, false)); ring.keys[k] = TMCG_PublicKey(*sk[k]); }
+			std::string cfs = "players=" + std::to_string(P) + " typebits=" + std::to_string(TB);
+			auto open = [&](const TMCG_Card &c) { TMCG_CardSecret cs(P, TB); for (size_t k = 0; k < P; k++) tm.TMCG_SelfCardSecret(c, cs, *sk[k], k); return tm.TMCG_TypeOfCard(cs); };
+			auto tok_keys = [&](bool y) { std::string r; for (size_t k = 0; k < P; k++) { if (k) r += ","; r += hx(y ? ring.keys[k].y : ring.keys[k].m); } return r; };
+			auto tok_mat = [&](const std::vector<std::vector<MP_INT> > &m) { std::string r; for (size_t k = 0; k < m.size(); k++) { if (k) r += ";"; for (size_t w = 0; w < m[k].size(); w++) { if (w) r += ","; r += hx(&m[k][w]); } } return r; };
+			auto tok_bits = [&](const std::vector<std::vector<MP_INT> > &m) { std::string r; for (size_t k = 0; k < m.size(); k++) { if (k) r += ";"; for (size_t w = 0; w < m[k].size(); w++) r += (mpz_get_ui(&m[k][w]) & 1) ? "1" : "0"; } return r; };
+			const size_t MAXT = (size_t)1 << TB;
+			// 5a. card secrets: the b-matrix as a function of the coins (model-compared), every column XORs to zero
+			for (unsigned k = 0; k < (T ? 40u : 12u); k++) {
+				size_t index = k % P;
+				TMCG_CardSecret cs(P, TB);
+				coin_script().clear(); coin_log().clear(); coin_logging() = true;
+				tm.TMCG_CreateCardSecret(cs, ring, index);
+				coin_logging() = false;
+				std::string coins((const char*)coin_log().data(), coin_log().size()); coin_log().clear();
+				Rec("qcs").t(tok_keys(false)).d((long)TB).d((long)index).b(coins).t("ret:" + tok_mat(cs.r) + ":" + tok_bits(cs.b));
+				for (size_t w = 0; w < TB; w++) { unsigned x = 0; for (size_t pl = 0; pl < P; pl++) x ^= mpz_get_ui(&cs.b[pl][w]) & 1; if (x) { propfail("qr-secret-column-xor", "TMCG_CreateCardSecret(index=" + std::to_string(index) + ", " + cfs + "): column " + std::to_string(w) + " of the secret bits " + tok_bits(cs.b) + " does not XOR to zero: masking with it changes the card type"); break; } }
+				// masking one card with it: compared number by number, and the type must survive
+				size_t t = gen().below(MAXT); TMCG_Card c(P, TB), cc(P, TB);
+				if (gen().coin()) tm.TMCG_CreateOpenCard(c, ring, t); else { TMCG_CardSecret c0(P, TB); tm.TMCG_CreatePrivateCard(c, c0, ring, gen().below(P), t); }
+				tm.TMCG_MaskCard(c, cc, cs, ring, gen().coin());
+				Rec("qmc").t(tok_keys(false)).t(tok_keys(true)).t(tok_mat(c.z)).t(tok_mat(cs.r)).t(tok_bits(cs.b)).t("ret:" + tok_mat(cc.z));
+				size_t t2 = open(cc);
+				if (t2 != t) propfail("qr-mask-type", "masking a card of type " + std::to_string(t) + " with a created secret (index=" + std::to_string(index) + ", " + cfs + ") gives type " + std::to_string(t2) + ", secret bits " + tok_bits(cs.b));
 			}
-			TMCG_StackSecret<TMCG_CardSecret> sigma, pi, gam;
-			bool cyc = (n >= 2) && gen().below(3) == 0;
-			size_t off = tm.TMCG_CreateStackSecret(sigma, cyc, ring, gen().below(P), n);
-			tm.TMCG_CreateStackSecret(pi, false, ring, gen().below(P), n);
-			std::vector<size_t> f1, f2; for (size_t i = 0; i < sigma.size(); i++) f1.push_back(sigma[i].first); for (size_t i = 0; i < pi.size(); i++) f2.push_back(pi[i].first);
-			if (f1.size() != n || !is_bijection(f1) || f2.size() != n || !is_bijection(f2)) { propfail("qr-css-bijection", "generated QR stack secret is not a bijection: " + tok_idx(f1) + " / " + tok_idx(f2)); continue; }
-			tm.TMCG_MixStack(s, s1, sigma, ring, gen().coin());
-			if (s1.size() != n) { propfail("qr-mix-size", "mixed QR stack has the wrong size"); continue; }
-			for (size_t i = 0; i < n; i++) if (open(s1[i]) != types[f1[i]]) { propfail("qr-mix-type", "QR encoding: card " + std::to_string(i) + " does not open to the type of input card " + std::to_string(f1[i]) + ", secret indices " + tok_idx(f1)); break; }
-			if (cyc) for (size_t i = 0; i < n; i++) if (open(s1[(i + off) % n]) != types[i]) { propfail("qr-rot-offset", "QR encoding: rotation offset " + std::to_string(off) + " wrong for indices " + tok_idx(f1)); break; }
-			gam = pi;
-			tm.TMCG_GlueStackSecret(sigma, gam, ring);
-			tm.TMCG_MixStack(s1, s2, pi, ring, false);
-			tm.TMCG_MixStack(s, s3, gam, ring, false);
-			if (!(s2 == s3)) propfail("qr-glue-compose", "QR encoding: mix(mix(s,sigma),pi) differs from mix(s,glue(sigma,pi)), indices " + tok_idx(f1) + " / " + tok_idx(f2));
-			std::vector<size_t> a = types, b; for (size_t i = 0; i < s2.size(); i++) b.push_back(open(s2[i]));
-			std::sort(a.begin(), a.end()); std::sort(b.begin(), b.end());
-			if (a != b) propfail("qr-mix-multiset", "QR encoding: multiset of types changed after two shuffles");
+			// 5b. shuffles: permutation and rotation, chains by DIFFERENT players (different index rows), glue
+			for (unsigned k = 0; k < (T ? 40u : 10u); k++) {
+				size_t n = (k < 5) ? 1 + k : 2 + gen().below(T ? 16 : 8);
+				TMCG_Stack<TMCG_Card> s; std::vector<size_t> types;
+				for (size_t i = 0; i < n; i++) {
+					size_t t = gen().below(1 + gen().below(MAXT)); TMCG_Card c(P, TB);
+					if (gen().coin()) tm.TMCG_CreateOpenCard(c, ring, t);
+					else { TMCG_CardSecret cs(P, TB); tm.TMCG_CreatePrivateCard(c, cs, ring, gen().below(P), t); }
+					s.push(c); types.push_back(t);
+				}
+				// a chain: every player shuffles once, in turn, with his own index
+				TMCG_Stack<TMCG_Card> cur = s; std::vector<size_t> expect = types; bool bad = false;
+				std::vector<TMCG_StackSecret<TMCG_CardSecret> > secrets;
+				for (size_t pl = 0; pl < P && !bad; pl++) {
+					TMCG_StackSecret<TMCG_CardSecret> ss; TMCG_Stack<TMCG_Card> nxt;
+					bool cyc = (n >= 2) && gen().below(3) == 0;
+					size_t off = tm.TMCG_CreateStackSecret(ss, cyc, ring, pl, n);
+					std::vector<size_t> f; for (size_t i = 0; i < ss.size(); i++) f.push_back(ss[i].first);
+					if (f.size() != n || !is_bijection(f)) { propfail("qr-css-bijection", "generated QR stack secret is not a bijection: " + tok_idx(f) + " (" + cfs + ")"); bad = true; break; }
+					tm.TMCG_MixStack(cur, nxt, ss, ring, gen().coin());
+					if (nxt.size() != n) { propfail("qr-mix-size", "mixed QR stack has the wrong size (" + cfs + ")"); bad = true; break; }
+					std::vector<size_t> got(n); for (size_t i = 0; i < n; i++) got[i] = open(nxt[i]);
+					for (size_t i = 0; i < n; i++) if (got[i] != expect[f[i]]) { propfail("qr-mix-type", "QR encoding (" + cfs + ", shuffling player " + std::to_string(pl) + (cyc ? ", rotation" : ", permutation") + "): card " + std::to_string(i) + " opens to type " + std::to_string(got[i]) + ", designated input card " + std::to_string(f[i]) + " has type " + std::to_string(expect[f[i]]) + ", indices " + tok_idx(f)); bad = true; break; }
+					if (cyc && !bad) for (size_t i = 0; i < n; i++) if (got[(i + off) % n] != expect[i]) { propfail("qr-rot-offset", "QR encoding: rotation offset " + std::to_string(off) + " wrong for indices " + tok_idx(f)); bad = true; break; }
+					std::vector<size_t> a = expect, b = got; std::sort(a.begin(), a.end()); std::sort(b.begin(), b.end());
+					if (a != b && !bad) { propfail("qr-mix-multiset", "QR encoding (" + cfs + "): multiset of types changed by a shuffle"); bad = true; }
+					std::vector<size_t> e2(n); for (size_t i = 0; i < n; i++) e2[i] = expect[f[i]];
+					expect = e2; cur = nxt; secrets.push_back(ss);
+				}
+				if (bad || secrets.size() < 2) continue;
+				// glue of the first two shuffles = their composition
+				TMCG_StackSecret<TMCG_CardSecret> gam; gam = secrets[1];
+				tm.TMCG_GlueStackSecret(secrets[0], gam, ring);
+				TMCG_Stack<TMCG_Card> s1, s2, s3;
+				tm.TMCG_MixStack(s, s1, secrets[0], ring, false);
+				tm.TMCG_MixStack(s1, s2, secrets[1], ring, false);
+				tm.TMCG_MixStack(s, s3, gam, ring, false);
+				if (!(s2 == s3)) propfail("qr-glue-compose", "QR encoding (" + cfs + "): mix(mix(s,sigma),pi) differs from mix(s,glue(sigma,pi))");
+			}
+			for (auto p : sk) delete p;
 		}
-		for (auto p : sk) delete p;
 	}
 	return 0;
 }
